@@ -64,6 +64,11 @@ example : deriveIsWindows [92, 97] = true := by decide                -- \a
 example : deriveIsWindows [47, 97] = false := by decide               -- /a
 example : deriveIsWindows [97, 92, 98] = false := by decide           -- a\b
 example : deriveIsWindows [] = false := by decide
+-- the two-separator lead-in of a prefix may be spelled with either separator in either position:
+-- `/` `\` `s` `\` `h` and `/` `\` `?` `\` `C` `:` carry a prefix although they start with `/` (seed C15r11)
+example : deriveIsWindows [47, 92, 115, 92, 104] = true := by decide
+example : deriveIsWindows [47, 92, 63, 92, 67, 58] = true := by decide
+example : deriveIsWindows [47, 47] = false := by decide
 
 /-- every public method the `typed` group of source files declares now is called by the harness
 (regenerated table, gen/api.py): a method added without a transcript line breaks this -/
